@@ -15,7 +15,9 @@ import (
 	"reflect"
 	"strings"
 	"testing"
+	"time"
 
+	"github.com/hashicorp/go-hclog"
 	"pgregory.net/rapid"
 
 	"github.com/hashicorp/consul/acl"
@@ -45,6 +47,9 @@ type verifC09KeyCase struct {
 	Keys    []string          `json:"keys"`
 	Txn     []verifC09TxnItem `json:"txn"`
 	Mask    []bool            `json:"mask"` // FilterEntries: true = filter out
+	// maskResultsFilteredByACLs: token presented (blank | anonymous | valid | unknown) and the flag before masking
+	MaskTok  string `json:"mask_tok"`
+	MaskFlag bool   `json:"mask_flag"`
 }
 
 var verifC09KeyUniverse = []string{"", "a", "a/", "a/b", "a/b/", "a/bc", "a/b/c", "ab", "é/ü", "b"}
@@ -126,7 +131,42 @@ func verifC09GenKeys(t *rapid.T) *verifC09KeyCase {
 	for i := 0; i < nm; i++ {
 		ks.Mask = append(ks.Mask, rapid.Bool().Draw(t, "mask"))
 	}
+	ks.MaskTok = []string{"blank", "anonymous", "valid", "unknown"}[verifC09U(t, 4, "masktok")]
+	ks.MaskFlag = rapid.Bool().Draw(t, "maskflag")
 	return ks
+}
+
+// verifC09RunMask: maskResultsFilteredByACLs at function level on a stub server (doc comment of the function: the flag is
+// blanked for unauthenticated callers — blank or anonymous token, or a token that does not resolve — and otherwise left
+// as the filter set it; it is never raised).
+func verifC09RunMask(f verifkit.F, c *verifkit.Case, ks *verifC09KeyCase) {
+	if ks.MaskTok == "" {
+		return
+	}
+	delegate := &ACLResolverTestDelegate{enabled: true, datacenter: "dc1", localTokens: true, localPolicies: true, localRoles: true}
+	delegate.UseTestLocalData([]interface{}{
+		&structs.ACLToken{AccessorID: anonymousAccessorID, SecretID: anonymousSecretID},
+		&structs.ACLToken{AccessorID: "5f3a0f0e-0000-0000-0000-000000000001", SecretID: "valid-secret"},
+	})
+	r, err := NewACLResolver(&ACLResolverConfig{
+		Config: ACLResolverSettings{ACLsEnabled: true, Datacenter: "dc1", NodeName: "verif-node", ACLPolicyTTL: 30 * time.Second,
+			ACLTokenTTL: 30 * time.Second, ACLRoleTTL: 30 * time.Second, ACLDownPolicy: "extend-cache", ACLDefaultPolicy: "deny"},
+		Logger:      hclog.NewNullLogger(),
+		CacheConfig: &structs.ACLCachesConfig{Identities: 3, Policies: 3, ParsedPolicies: 3, Authorizers: 3, Roles: 3},
+		Backend:     delegate,
+	})
+	if err != nil {
+		f.Fatalf("C09 harness: NewACLResolver: %v", err)
+	}
+	s := &Server{ACLResolver: r, loggers: newLoggerStore(hclog.NewNullLogger())}
+	tok := map[string]string{"blank": "", "anonymous": anonymousSecretID, "valid": "valid-secret", "unknown": "no-such-secret"}[ks.MaskTok]
+	qm := &structs.QueryMeta{ResultsFilteredByACLs: ks.MaskFlag}
+	maskResultsFilteredByACLs(tok, qm, s)
+	want := ks.MaskFlag && ks.MaskTok == "valid"
+	if qm.ResultsFilteredByACLs != want {
+		c.Violation(f, "C09/maskResultsFilteredByACLs/"+ks.MaskTok, "token kind %s, flag before=%v: flag after=%v, want %v", ks.MaskTok, ks.MaskFlag, qm.ResultsFilteredByACLs, want)
+	}
+	c.Labelf("mask=%s/%v", ks.MaskTok, ks.MaskFlag)
 }
 
 func verifC09MkEnts(keys []string) structs.DirEntries {
@@ -182,7 +222,7 @@ func verifC09RunKeys(f verifkit.F, c *verifkit.Case, ks *verifC09KeyCase) {
 		if got := FilterDirEnt(acl.DenyAll(), verifC09MkEnts(ks.Keys)); len(got) != 0 {
 			c.Violation(f, "C09/FilterDirEnt/K2-content", "deny-all left %d entries", len(got))
 		}
-		var wantSingles, wantRule structs.DirEntries
+		var wantSingles structs.DirEntries
 		for i := range ks.Keys {
 			one := structs.DirEntries{pristine[i]}
 			cp := *pristine[i]
@@ -201,9 +241,6 @@ func verifC09RunKeys(f verifkit.F, c *verifkit.Case, ks *verifC09KeyCase) {
 			default:
 				c.Violation(f, "C09/FilterDirEnt/singleton-shape", "filtering one entry returned %d entries / a changed entry", len(res))
 			}
-			if readable {
-				wantRule = append(wantRule, pristine[i])
-			}
 		}
 		in := verifC09MkEnts(ks.Keys)
 		ptrs := append(structs.DirEntries(nil), in...)
@@ -217,12 +254,9 @@ func verifC09RunKeys(f verifkit.F, c *verifkit.Case, ks *verifC09KeyCase) {
 				break
 			}
 		}
-		removed := len(ks.Keys) - len(got)
 		verifC09ArrLabels(c, "dirent", len(ks.Keys), func(i int) bool {
 			return acl.Allow != az.KeyRead(ks.Keys[i], &acl.AuthorizerContext{})
 		})
-		_ = removed
-		_ = wantRule
 	}
 	// ---- FilterTxnResults
 	{
@@ -268,6 +302,7 @@ func verifC09RunKeys(f verifkit.F, c *verifkit.Case, ks *verifC09KeyCase) {
 		}
 		verifC09ArrLabels(c, "entries", len(ks.Mask), func(i int) bool { return ks.Mask[i] })
 	}
+	verifC09RunMask(f, c, ks)
 }
 
 func verifC09ArrLabels(c *verifkit.Case, what string, n int, removed func(i int) bool) {
